@@ -34,4 +34,13 @@ let () =
   List.iter (fun (id, script, fin, ctx, runs) ->
     print_string (string_of_int id);
     List.iter print_stmt (C10pieces.script_pieces script fin ctx (nat_of_int runs));
-    print_newline ()) Cases.mcases
+    print_newline ()) Cases.mcases;
+  (* round 4: the hypothesis of logql_requests_differing_only_in_values_have_the_same_structure on the parsed requests:
+     "V <hostile id> <baseline id> <script_variantb baseline hostile>" *)
+  let tbl = Hashtbl.create 1024 in
+  List.iter (fun (id, sel, _, _, _) -> Hashtbl.replace tbl id (C10pieces.SLog sel)) Cases.lcases;
+  List.iter (fun (id, script, _, _, _) -> Hashtbl.replace tbl id script) Cases.mcases;
+  List.iter (fun (h, b) ->
+    match Hashtbl.find_opt tbl h, Hashtbl.find_opt tbl b with
+    | Some sh, Some sb -> Printf.printf "V %d %d %d\n" h b (if C10pieces.script_variantb sb sh then 1 else 0)
+    | _ -> ()) Cases.pairs
